@@ -273,7 +273,11 @@ impl StateMachine<'_> {
                     &self.config.classic_grep_header_file_style,
                     &self.config.grep_line_number_style,
                     &self.config.hunk_header_style_include_file_path,
-                    &self.config.hunk_header_style_include_line_number,
+                    if grep_line.line_number.is_some() {
+                        &self.config.hunk_header_style_include_line_number
+                    } else {
+                        &HunkHeaderIncludeLineNumber::No
+                    },
                     &HunkHeaderIncludeHunkLabel::Yes,
                     &HunkHeaderIncludeCodeFragment::Yes,
                     grep_line.line_type.file_path_separator(),
